@@ -215,6 +215,17 @@ Section Top.
     repair crc msg ser deser (frames ps ++ tail) = (frames ps, true).
   Proof. apply (repair_prefix crc crc32c_lt). Qed.
 
+  (** one record damaged in CRC field or payload: the repair keeps exactly the records before it *)
+  Lemma top_repair_bitflip pre pre_ms p post i b' :
+    Forall2 (canon msg ser deser) pre pre_ms ->
+    wf_bytes p -> p <> [] -> (lenN p <= max_msg_size_bytes)%N ->
+    i < length (frame p) -> ~ (4 <= i < 8) -> (b' < 256)%N -> nth i (frame p) 0%N <> b' ->
+    repair crc msg ser deser (frames pre ++ set_nth i b' (frame p) ++ post) = (frames pre, true).
+  Proof.
+    intros C W NE L Hi Ho Hb Hn. apply (repair_prefix crc crc32c_lt msg ser deser pre pre_ms _ C).
+    intros m r E. rewrite (bitflip_detected msg deser RFile p post i b') in E by auto. discriminate.
+  Qed.
+
   Lemma top_repair_truncated ps ms n :
     Forall2 (canon msg ser deser) ps ms -> n < length (frames ps) ->
     (exists j, repair crc msg ser deser (firstn n (frames ps)) = (frames (firstn j ps), true)) \/
